@@ -20,7 +20,9 @@ EXTENDS Encoding, TLC, Json
 
 CONSTANTS K,        \* max number of slots changed w.r.t. a base
           Kinds,    \* subset of {"view", "op", "commit", "blob", "tree"}
-          Emit      \* TRUE: print <<"REPLAY", json>> for every state
+          Emit,     \* TRUE: print <<"REPLAY", json>> for every state
+          RepLevel  \* 2: all six repeating-term targets in every ref category (+ some in the secondary slots);
+                    \* 1: two of them, main slots only (keeps the K = 3 family tractable)
 
 VARIABLE st         \* [kind |-> .., s |-> slot assignment]
 
@@ -43,26 +45,27 @@ TR3  == <<"c1", "c1", "c1">>          \* [a, a, a]
 TR4  == <<"c1", "", "">>              \* [a, absent, absent]
 TR5  == <<"", "", "c1">>              \* [absent, absent, a]
 TR6  == <<"c1", "c2", "c3", "c3", "c1">>   \* 5 terms, one cancelling pair
-Repeating == {TR1, TR2, TR3, TR4, TR5, TR6}
+Repeating == IF RepLevel = 2 THEN {TR1, TR2, TR3, TR4, TR5, TR6} ELSE {TR1, TR4}
+Minor(S) == IF RepLevel = 2 THEN S ELSE {}
 RRBoth(T) == {RR(t, "new") : t \in T} \cup {RR(t, "tracked") : t \in T}
 
 ViewVariants ==
   [heads |-> {{}, {"c1"}, {"c1", "c2"}},
    lb1   |-> {NoEntry, TN, TAA, TAR, TC3, TC5} \cup Repeating,
-   lb2   |-> {NoEntry, TN2, TC3, TR1, TR4},
+   lb2   |-> {NoEntry, TN2, TC3} \cup Minor({TR1, TR4}),
    tg1   |-> {NoEntry, TN, TAR, TC3} \cup Repeating,
-   tg2   |-> {NoEntry, TN2, TR2, TR5},
+   tg2   |-> {NoEntry, TN2} \cup Minor({TR2, TR5}),
    gitE  |-> BOOLEAN,                  \* remote "git" exists with no refs at all
    orgE  |-> BOOLEAN,
    gb1   |-> {NoRRef, RR(TN, "new"), RR(TN, "tracked"), RR(TAR, "new"), RR(TC3, "tracked"), RR(AbsentTarget, "tracked")} \cup RRBoth(Repeating),
-   ob1   |-> {NoRRef, RR(TN2, "new"), RR(TN2, "tracked"), RR(TAA, "new"), RR(TC5, "tracked"), RR(AbsentTarget, "tracked"), RR(TR1, "tracked"), RR(TR4, "new")},
+   ob1   |-> {NoRRef, RR(TN2, "new"), RR(TN2, "tracked"), RR(TAA, "new"), RR(TC5, "tracked"), RR(AbsentTarget, "tracked")} \cup Minor({RR(TR1, "tracked"), RR(TR4, "new")}),
    ob2   |-> {NoRRef, RR(TN, "new"), RR(TN, "tracked")},
    gt1   |-> {NoRRef, RR(TN, "tracked"), RR(TN, "new"), RR(AbsentTarget, "tracked")} \cup RRBoth(Repeating),
-   ot1   |-> {NoRRef, RR(TN2, "new"), RR(TC3, "tracked"), RR(TR2, "new"), RR(TR6, "tracked")},
+   ot1   |-> {NoRRef, RR(TN2, "new"), RR(TC3, "tracked")} \cup Minor({RR(TR2, "new"), RR(TR6, "tracked")}),
    gr1   |-> {NoEntry, TN, TC3, TAR} \cup Repeating,
-   gr2   |-> {NoEntry, TN2, TR3, TR6},
+   gr2   |-> {NoEntry, TN2} \cup Minor({TR3, TR6}),
    gh1   |-> {NoEntry, TN, TC3} \cup Repeating,
-   gh2   |-> {NoEntry, TN2, TC3, TR1, TR5},
+   gh2   |-> {NoEntry, TN2, TC3} \cup Minor({TR1, TR5}),
    wc1   |-> {"", "c1", "c2"},
    wc2   |-> {"", "c2"}]
 
